@@ -351,3 +351,12 @@ func FullMatch(expr, s string) (bool, error) {
 	}
 	return r.MatchString(s), nil
 }
+
+// Matcher compiles expr once and returns a full-match predicate.
+func Matcher(expr string) (func(string) bool, error) {
+	r, err := regexp.Compile(`\A(?:` + expr + `)\z`)
+	if err != nil {
+		return nil, err
+	}
+	return r.MatchString, nil
+}
